@@ -7,7 +7,7 @@ META = {
     "id": "C06",
     "level": "exploration",
     "technique": "TLA+ spec SplitPath: cell domain (perturbative order x where the three scales lie: inside one patch upwards / downwards / up and back, across the bottom matching scale with the split point below / above it, downwards within nf = 5 and then through the backward matching, and split / initial points that keep nf = 4 above the matching scale so that the next leg runs down within the patch before it crosses) and the required convergence class, enumerated and validated by TLC (SplitPathTrace, with a coverage record); measurements on the real solver with REAL quadrature: two separate solves per grid (mu0 -> {mu1, mu2} and mu1 -> mu2), the x-space operators contracted with a smooth random toy input, discrepancy between split and direct evolution on an 8- and a 16-point grid on [1e-2, 1], sent to TLC as decade and 100 x log2 of the shrink factor",
-    "text": "For every cell TLC requires the discrepancy on the finer grid to be at most 1e-2 and to shrink by at least a factor 2 when the grid is refined from 8 to 16 points (clean tree: 1e-4..3e-3 at 16 points, factors 5-10, i.e. below the 1e-3 the statement quotes for >= 25 points). A composition that is wrong at O(1) - a wrong flavour path, a matching applied on the wrong side, a backward matching that is not the inverse of the forward one, parts joined in the wrong order - stays at 1e-2..1 on every grid and fails the shrink clause. Quick: LO inside one patch and for the non-default-nf points, NLO across the matching scale (8 cells); thorough: all eight shapes at LO, NLO and NNLO (24 cells).",
+    "text": "For every cell TLC requires the discrepancy on the finer grid to be at most 1e-2 and to shrink by at least a factor 2 when the grid is refined from 8 to 16 points (clean tree: 1e-4..3e-3 at 16 points, factors 5-10, i.e. below the 1e-3 the statement quotes for >= 25 points). A composition that is wrong at O(1) - a wrong flavour path, a matching applied on the wrong side, a backward matching that is not the inverse of the forward one, parts joined in the wrong order - stays at 1e-2..1 on every grid and fails the shrink clause. Quick: LO inside one patch and for the non-default-nf points, NLO across the matching scale and an initial point above the charm matching scale with nf = 3 whose first leg ends below its starting scale, at NLO (9 cells); thorough: all nine shapes at LO, NLO and NNLO (27 cells).",
     "note": "Decided as a convergence class with wide margins, not as an accuracy. iterate-exact with 10 iterations, exact inversion of the backward matching, interpolation degree 3, Lambert grids on [1e-2, 1]; scales jittered by +-3% per run. Level exploration (law over measured classes). Cost: a 16-point NLO solve takes about a minute interpreted.",
     "design_ref": "6 (planned as not applicable), 11.3",
     "rule": "cell = (order, shape); one seeded jitter of the three scales per cell and run; non-trivial = both grids solved",
@@ -20,10 +20,11 @@ def run(chk):
     inside = ("up-inside", "down-inside", "updown")
     across = ("up-across-low", "up-across-high", "down-across")
     forced = ("forced-split", "forced-init")
+    downup = ("forced-down-up",)
     if chk.thorough():
-        cells = [dict(order=o, shape=s) for o in (1, 2, 3) for s in inside + across + forced]
+        cells = [dict(order=o, shape=s) for o in (1, 2, 3) for s in inside + across + forced + downup]
     else:
-        cells = [dict(order=1, shape=s) for s in inside + forced] + [dict(order=2, shape=s) for s in across]
+        cells = [dict(order=1, shape=s) for s in inside + forced] + [dict(order=2, shape=s) for s in across + downup]
     jobs = [(c, chk.rng.randrange(2**31), 8) for c in sorted(cells, key=lambda c: -c["order"])]
     with mp.get_context("fork").Pool(min(16, len(jobs))) as pool:
         recs = pool.map(splitpath.split_cell, jobs, chunksize=1)
